@@ -15,8 +15,19 @@
          amount_nonneg, outputs x u (keypoint outputs of unit u), idxQ (index as a
          rational), sep_sum (sum over dimensions of f_d(v_d)), edge_sum / pair_form
          (l1 or l2 sum over the edges along one dimension / over the 2x2 squares of
-         one dimension pair of the tensor the code works on, lap_shape). *)
+         one dimension pair of the tensor the code works on, lap_shape).
+
+   Square roots: only the scalar torsion amount uses one (the code expands a
+   scalar l to [math.sqrt(l)] * rank and multiplies two factors).
+   C13_torsion_scalar_sqrt_oracle assumes an EXACT root s*s == l (idealised:
+   over Q satisfiable only for rational squares; it is the instance of
+   C13_torsion_scalar_any_root where the root happens to be exact).
+   C13_torsion_scalar_any_root (no hypothesis on the root) and
+   C13_torsion_scalar_approximate_root (relative error e) hold for every
+   amount; proofs in Proofs/SqrtRobust.v (module TorsionRoot).  No other
+   theorem of this file involves a root. *)
 From TFL Require Import Model.Regularizers Proofs.Regularizers.
+From TFL Require Proofs.SqrtRobust.
 Open Scope Q_scope.
 
 (* ---------------- code-shaped == documented ---------------- *)
@@ -150,6 +161,43 @@ Theorem C13_torsion_scalar_sqrt_oracle : forall sizes units (s1 s2 q1 q2 : Q) w,
   lattice_torsion sizes units (Scalar q1) (Scalar q2) w.
 Proof. exact tors_sqrt_oracle. Qed.
 Print Assumptions C13_torsion_scalar_sqrt_oracle.
+
+(* The general fact, for EVERY r1 r2 (r_i = whatever math.sqrt(l_i) returned):
+   the per-dimension lists [r_i] * rank give the model's value for the scalar
+   amounts r_i * r_i, which is the documented sum with pair weight r_i * r_i and
+   differs from the documented sum with weight l_i by (r_i * r_i - l_i) times the
+   unit-amount penalty. *)
+Theorem C13_torsion_scalar_any_root : forall sizes units (r1 r2 l1 l2 : Q) w, (1 <= units)%nat ->
+  let code := lattice_torsion sizes units (PerDim (repeat r1 (length sizes))) (PerDim (repeat r2 (length sizes))) w in
+  code == lattice_torsion sizes units (Scalar (r1 * r1)) (Scalar (r2 * r2)) w /\
+  code == doc_torsion sizes units (Scalar (r1 * r1)) (Scalar (r2 * r2)) w /\
+  code - doc_torsion sizes units (Scalar l1) (Scalar l2) w ==
+    (r1 * r1 - l1) * doc_torsion sizes units (Scalar 1) (Scalar 0) w +
+    (r2 * r2 - l2) * doc_torsion sizes units (Scalar 0) (Scalar 1) w.
+Proof. intros sizes units r1 r2 l1 l2 w Hu.
+  exact (conj (SqrtRobust.TorsionRoot.tors_scalar_any_root sizes units r1 r2 w)
+              (SqrtRobust.TorsionRoot.tors_scalar_any_root_doc sizes units r1 r2 l1 l2 w Hu)). Qed.
+Print Assumptions C13_torsion_scalar_any_root.
+
+(* roots with relative error e in the square (what math.sqrt guarantees, e about
+   2^-52): the penalty is within the same relative error of the documented sum *)
+Theorem C13_torsion_scalar_approximate_root : forall sizes units (r1 r2 l1 l2 e : Q) w, (1 <= units)%nat ->
+  (1 - e) * l1 <= r1 * r1 -> r1 * r1 <= (1 + e) * l1 ->
+  (1 - e) * l2 <= r2 * r2 -> r2 * r2 <= (1 + e) * l2 ->
+  let code := lattice_torsion sizes units (PerDim (repeat r1 (length sizes))) (PerDim (repeat r2 (length sizes))) w in
+  (1 - e) * doc_torsion sizes units (Scalar l1) (Scalar l2) w <= code /\
+  code <= (1 + e) * doc_torsion sizes units (Scalar l1) (Scalar l2) w.
+Proof. exact SqrtRobust.TorsionRoot.tors_scalar_approx_root. Qed.
+Print Assumptions C13_torsion_scalar_approximate_root.
+
+(* satisfiable for the non-square amount 2 with the rational root 99/70, e = 1/9800 *)
+Example C13_torsion_root_two_example :
+  let r := 99 # 70 in let e := 1 # 9800 in let w := [0; 0; 0; 1] in
+  (1 - e) * 2 <= r * r /\ r * r <= (1 + e) * 2 /\ ~ r * r == 2 /\
+  doc_torsion [2; 2]%nat 1 (Scalar 2) (Scalar 2) w == 4 /\
+  lattice_torsion [2; 2]%nat 1 (PerDim (repeat r 2)) (PerDim (repeat r 2)) w == 2 * (r * r) /\
+  (1 - e) * 4 <= 2 * (r * r) /\ 2 * (r * r) <= (1 + e) * 4.
+Proof. exact SqrtRobust.TorsionRoot.tors_root_two. Qed.
 
 (* ---------------- zeros ---------------- *)
 
